@@ -1,6 +1,6 @@
 """C20 (lattice family; see latfam.py)."""
-from . import latfam
+from . import latfam, util
 
-globals().update(latfam.module('C20', ['C20_nodes', 'C20_edges'],
+globals().update(latfam.module('C20', util.theorems('C20'),
     'contexts as C03; observation = Digraph.body parsed into node / head-label / tail-label / edge statements, label callbacks returning index tokens; non-trivial = >=3 concepts and a concept with >=2 labels',
-    extra_targets=[], partial='graphviz line syntax and quoting not modelled; labels via C10, covers via C05 (correspondence)'))
+    extra_targets=[], partial=''))
